@@ -1622,6 +1622,108 @@ def rule_r18(repo, run):
                   "c:` with nothing behind it) a list is stored where the wrappers expect a dictionary - AttributeError in the "
                   "wrapper instead of the diagnostic" % label, am.loc(stores[0]))
 
+def rule_r19(repo, run):
+    R = run.rule("C17.R19", "every file named on the command line is read or refused: the dispatch on the suffix has an arm for "
+                            "everything else that raises")
+    sm = repo.module("splicer")
+    fn = sm.func("get_splicer_based_on_suffix")
+    chains = [i for i in fn.body if isinstance(i, ast.If)]
+    if len(chains) != 1:
+        raise AnalysisError("C17.R19: the suffix dispatch of get_splicer_based_on_suffix was not found")
+    cur = chains[0]
+    while len(cur.orelse) == 1 and isinstance(cur.orelse[0], ast.If):
+        cur = cur.orelse[0]
+    tail = cur.orelse
+    refuses = any(isinstance(x, ast.Raise) for st in tail for x in ast.walk(st))
+    run.check(R, "splicer.get_splicer_based_on_suffix:unknown-suffix", refuses,
+              "a file whose suffix is none of the known ones falls through the if/elif chain: `shroud lib.yml` reads nothing, "
+              "says nothing and writes the wrappers of an empty library", sm.loc(chains[0]))
+    mm = repo.module("main")
+    mf = mm.func("main_with_args")
+    disp = [i for i in ast.walk(mf) if isinstance(i, ast.If) and "ext" in ast.unparse(i.test) and ".yaml" in ast.unparse(i.test)]
+    if not disp:
+        raise AnalysisError("C17.R19: the dispatch on the suffix in main_with_args was not found")
+    cur = disp[0]
+    while len(cur.orelse) == 1 and isinstance(cur.orelse[0], ast.If):
+        cur = cur.orelse[0]
+    handled = any(isinstance(x, ast.Raise) or (isinstance(x, ast.Call) and (pyflow.call_name(x) or "").endswith("get_splicer_based_on_suffix"))
+                  for st in cur.orelse for x in ast.walk(st))
+    run.check(R, "main.main_with_args:other-files", handled,
+              "a file that is not YAML is neither handed to the splicer reader nor refused", mm.loc(disp[0]))
+
+
+def rule_r20(repo, run):
+    R = run.rule("C17.R20", "a name looked up in the symbol table is used as the kind of thing the grammar asks for only after its "
+                            "kind was tested: the base of a class is a class node")
+    dm = repo.module("declast")
+    fn = dm.func("Parser.class_statement")
+    apps = [c for c in ast.walk(fn) if isinstance(c, ast.Call) and isinstance(c.func, ast.Attribute) and c.func.attr == "append"
+            and "baseclass" in ast.unparse(c.func.value)]
+    if len(apps) != 1:
+        raise AnalysisError("C17.R20: the registration of the base class in Parser.class_statement was not found")
+    # a test of the node's kind with a diagnostic, in front of the registration, in the same statement list
+    seq = apps[0]
+    while not isinstance(seq, ast.stmt):
+        seq = seq._parent
+    body = getattr(seq._parent, "body", [])
+    idx = [k for k, st in enumerate(body) if st is seq]
+    tested = False
+    if idx:
+        for st in body[:idx[0]]:
+            if isinstance(st, ast.If) and re.search(r"nodename|isinstance\(", ast.unparse(st.test)) and \
+                    any((pyflow.call_name(c) or "") == "self.error_msg" or isinstance(c, ast.Raise) for x in st.body for c in ast.walk(x)):
+                tested = True
+    run.check(R, "declast.Parser.class_statement:base-is-a-class", tested,
+              "whatever the symbol table returns for the name after `:` is recorded as base class: for a namespace "
+              "(`class A : public std`) the class node is built on an object without a typemap - AttributeError", dm.loc(apps[0]))
+
+
+def rule_r21(repo, run):
+    R = run.rule("C17.R21", "an attribute that needs a value is refused without one wherever it is legal: the `is True` test "
+                            "(attribute present, no value) the argument check makes for an attribute is made by the variable "
+                            "check for every attribute the two have in common")
+    gm = repo.module("generate")
+    fa = gm.func("VerifyAttrs.check_arg_attrs")
+    fv = gm.func("VerifyAttrs.check_var_attrs")
+
+    def valueless(fn):
+        """attributes A with `if <A> is True: raise`, A named through attrs["A"] or a local assigned from it"""
+        local = {}
+        for a in ast.walk(fn):
+            if isinstance(a, ast.Assign) and len(a.targets) == 1 and isinstance(a.targets[0], ast.Name) \
+                    and isinstance(a.value, ast.Subscript) and pyflow.const_str(a.value.slice) and "attrs" in ast.unparse(a.value.value):
+                local[a.targets[0].id] = pyflow.const_str(a.value.slice)
+        out = set()
+        for i in ast.walk(fn):
+            if isinstance(i, ast.If) and any(isinstance(x, ast.Raise) for st in i.body for x in ast.walk(st)):
+                for c in ast.walk(i.test):
+                    if isinstance(c, ast.Compare) and len(c.ops) == 1 and isinstance(c.ops[0], ast.Is) \
+                            and isinstance(c.comparators[0], ast.Constant) and c.comparators[0].value is True:
+                        l = c.left
+                        if isinstance(l, ast.Name) and l.id in local:
+                            out.add(local[l.id])
+                        elif isinstance(l, ast.Subscript) and pyflow.const_str(l.slice):
+                            out.add(pyflow.const_str(l.slice))
+        return out
+    arg_needs = set()
+    for q, f_ in gm.functions().items():
+        if q.startswith("VerifyAttrs.check_") and q != "VerifyAttrs.check_var_attrs":
+            arg_needs |= valueless(f_)
+    var_needs = valueless(fv)
+    legal = set()
+    for c in ast.walk(fv):
+        if isinstance(c, ast.Compare) and isinstance(c.ops[0], ast.NotIn) and isinstance(c.comparators[0], (ast.List, ast.Tuple)):
+            legal |= set(pyflow.const_str(e) for e in c.comparators[0].elts)
+    if not arg_needs or not legal:
+        raise AnalysisError("C17.R21: value-less attribute tests / legal variable attributes not found (%s / %s)" % (sorted(arg_needs), sorted(legal)))
+    if not (arg_needs & legal):
+        raise AnalysisError("C17.R21: no attribute is both value-checked for arguments and legal for variables (%s / %s)" % (sorted(arg_needs), sorted(legal)))
+    for attr in sorted(arg_needs & legal):
+        run.check(R, "generate.VerifyAttrs.check_var_attrs:%s-without-value" % attr, attr in var_needs,
+                  "`+%s` without a value is refused on an argument and accepted on a variable: the value True is turned into the "
+                  "text `True` and used as an expression" % attr, gm.loc(fv))
+
+
 def loader_modules():
     from sa.loader import PY_MODULES
     return PY_MODULES
@@ -1646,3 +1748,6 @@ def run(repo, run, tier):
     rule_r12(repo, run)
     rule_r16(repo, run)
     rule_r18(repo, run)
+    rule_r19(repo, run)
+    rule_r20(repo, run)
+    rule_r21(repo, run)
